@@ -911,3 +911,7 @@ impl<'a, T: 'a + IntervalBound> FromIterator<&'a T> for IntervalSet<T> {
         values.into_iter().cloned().collect()
     }
 }
+
+#[cfg(all(aws_s2n_quic_verif, test))]
+#[path = "/verif/harness/core/iset_index.rs"]
+mod verif;
